@@ -304,7 +304,35 @@ pub enum FdOp {
 }
 
 #[derive(Clone, Debug, PartialEq, Serialize, Deserialize)]
+pub enum PgExtOp {
+    TycAsEnum(Vec<IdenSpec>),
+    TycValues(Vec<IdenSpec>, IterB),
+    TydName(Vec<IdenSpec>),
+    TydNames(Vec<Vec<IdenSpec>>, IterB),
+    TydIfExists,
+    TydCascade,
+    TydRestrict,
+    TyaName(Vec<IdenSpec>),
+    TyaAddValue(IdenSpec),
+    TyaBefore(IdenSpec),
+    TyaAfter(IdenSpec),
+    TyaIfNotExists,
+    TyaRenameTo(IdenSpec),
+    TyaRenameValue(IdenSpec, IdenSpec),
+    ExcName(String),
+    ExcSchema(String),
+    ExcVersion(String),
+    ExcCascade,
+    ExcIfNotExists,
+    ExdName(String),
+    ExdIfExists,
+    ExdCascade,
+    ExdRestrict,
+}
+
+#[derive(Clone, Debug, PartialEq, Serialize, Deserialize)]
 pub enum Op {
+    Pg(PgExtOp),
     Ord(OrdOp),
     Cond(CondOp),
     Sel(SelOp),
@@ -402,6 +430,17 @@ impl Op {
                 _ => matches!(fam, Family::FkCreate | Family::TableFk),
             },
             Op::Fd(_) => fam == Family::FkDrop,
+            Op::Pg(p) => {
+                let k = format!("{:?}", p);
+                match fam {
+                    Family::TypeCreate => k.starts_with("Tyc"),
+                    Family::TypeDrop => k.starts_with("Tyd"),
+                    Family::TypeAlter => k.starts_with("Tya"),
+                    Family::ExtCreate => k.starts_with("Exc"),
+                    Family::ExtDrop => k.starts_with("Exd"),
+                    _ => false,
+                }
+            }
         }
     }
 
@@ -1576,6 +1615,96 @@ fn apply_fc(f: &mut ForeignKeyCreateStatement, op: &FkOp, cx: &mut Ctx) {
     }
 }
 
+fn type_ref(ns: &[IdenSpec], cx: &mut Ctx) -> sea_query::extension::postgres::TypeRef {
+    use sea_query::extension::postgres::IntoTypeRef;
+    match ns.len() {
+        0 | 1 => cx
+            .iden(ns.first().unwrap_or(&IdenSpec { n: "t".into(), slot: None, alias: false }))
+            .into_type_ref(),
+        2 => {
+            let a = cx.iden(&ns[0]);
+            (a, cx.iden(&ns[1])).into_type_ref()
+        }
+        _ => {
+            let a = cx.iden(&ns[0]);
+            let b = cx.iden(&ns[1]);
+            (a, b, cx.iden(&ns[2])).into_type_ref()
+        }
+    }
+}
+
+fn apply_pg(s: &mut Stmt, op: &PgExtOp, cx: &mut Ctx) {
+    match (s, op) {
+        (Stmt::TypeCreate(t), PgExtOp::TycAsEnum(n)) => {
+            t.as_enum(type_ref(n, cx));
+        }
+        (Stmt::TypeCreate(t), PgExtOp::TycValues(v, b)) => {
+            let vs: Vec<DynIden> = v.iter().map(|x| cx.iden(x)).collect();
+            t.values(cx.iter(vs, *b));
+        }
+        (Stmt::TypeDrop(t), PgExtOp::TydName(n)) => {
+            t.name(type_ref(n, cx));
+        }
+        (Stmt::TypeDrop(t), PgExtOp::TydNames(ns, b)) => {
+            let vs: Vec<sea_query::extension::postgres::TypeRef> = ns.iter().map(|n| type_ref(n, cx)).collect();
+            t.names(cx.iter(vs, *b));
+        }
+        (Stmt::TypeDrop(t), PgExtOp::TydIfExists) => {
+            t.if_exists();
+        }
+        (Stmt::TypeDrop(t), PgExtOp::TydCascade) => {
+            t.cascade();
+        }
+        (Stmt::TypeDrop(t), PgExtOp::TydRestrict) => {
+            t.restrict();
+        }
+        (Stmt::TypeAlter(t), o) => {
+            let cur = std::mem::take(t);
+            *t = match o {
+                PgExtOp::TyaName(n) => cur.name(type_ref(n, cx)),
+                PgExtOp::TyaAddValue(v) => cur.add_value(cx.iden(v)),
+                PgExtOp::TyaBefore(v) => cur.before(cx.iden(v)),
+                PgExtOp::TyaAfter(v) => cur.after(cx.iden(v)),
+                PgExtOp::TyaIfNotExists => cur.if_not_exists(),
+                PgExtOp::TyaRenameTo(v) => cur.rename_to(cx.iden(v)),
+                PgExtOp::TyaRenameValue(a, b) => {
+                    let a = cx.iden(a);
+                    cur.rename_value(a, cx.iden(b))
+                }
+                other => panic!("HARNESS: {:?} on TypeAlter", other),
+            };
+        }
+        (Stmt::ExtCreate(t), PgExtOp::ExcName(x)) => {
+            t.name(x.clone());
+        }
+        (Stmt::ExtCreate(t), PgExtOp::ExcSchema(x)) => {
+            t.schema(x.clone());
+        }
+        (Stmt::ExtCreate(t), PgExtOp::ExcVersion(x)) => {
+            t.version(x.clone());
+        }
+        (Stmt::ExtCreate(t), PgExtOp::ExcCascade) => {
+            t.cascade();
+        }
+        (Stmt::ExtCreate(t), PgExtOp::ExcIfNotExists) => {
+            t.if_not_exists();
+        }
+        (Stmt::ExtDrop(t), PgExtOp::ExdName(x)) => {
+            t.name(x.clone());
+        }
+        (Stmt::ExtDrop(t), PgExtOp::ExdIfExists) => {
+            t.if_exists();
+        }
+        (Stmt::ExtDrop(t), PgExtOp::ExdCascade) => {
+            t.cascade();
+        }
+        (Stmt::ExtDrop(t), PgExtOp::ExdRestrict) => {
+            t.restrict();
+        }
+        (s, o) => panic!("HARNESS: {:?} on {:?}", o, s.family()),
+    }
+}
+
 /// Perform one builder call. `Err` = the call returned `Err` (only INSERT row ops can).
 /// Panics propagate to the caller (which decides whether they were injected / expected).
 pub fn apply_op(s: &mut Stmt, op: &Op, cx: &mut Ctx) -> Result<(), String> {
@@ -1643,6 +1772,7 @@ pub fn apply_op(s: &mut Stmt, op: &Op, cx: &mut Ctx) -> Result<(), String> {
         },
         (Stmt::FkCreate(q), Op::Fk(o)) => apply_fc(q, o, cx),
         (Stmt::TableFk(q), Op::Fk(o)) => apply_fk_common(q, o, cx),
+        (st, Op::Pg(o)) => apply_pg(st, o, cx),
         (Stmt::FkDrop(q), Op::Fd(o)) => match o {
             FdOp::Name(s) => {
                 q.name(s.clone());
